@@ -37,7 +37,7 @@ REQUIRED_MONITORS = ("openapi.emit.observed", "openapi_bulk.observed", "refs.res
                      "path-params.checked", "model-schema.compared")
 ASSUMPTIONS = ["a $ref is resolved as a JSON pointer inside the same document",
                "Create -> POST on the collection path; Read -> GET and Delete -> DELETE on the item path"]
-SINGLE = ("Config", "Node", "Edge", "Thing", "Widget")
+SINGLE = ("Config", "Node", "Edge", "Thing", "Widget", "A", "X", "Ab", "T2")  # (incl. the shortest legal names)
 MULTI = ("FooBar", "UserProfile", "OrderLine")
 TABLEISH = ("alpha_beta", "user_account_tbl", "setting_tbl")
 
